@@ -25,6 +25,7 @@ func runC07(c *Ctx) {
 	c.Rule("R07c", "pragma filters are anchored: each regexp used as a line filter in sql/sqltool matches only at the beginning of the line and every top-level alternative starts with the tool's pragma literal", 2)
 	c.Rule("R07d", "escape/scan agreement: a dialect whose literal-quoting helper produces backslash escapes (strconv.Quote) scans statements with BackslashEscapes: true", 1)
 	c.Rule("R07e", "quoting helpers neutralise their own delimiter: the string written between quotes is first passed through an escaping call (ReplaceAll of the quote / strconv.Quote)", 4)
+	c.Rule("R07g", "comment agreement: the goose reader inserts its statement delimiter after a line only if the line does not start with the line-comment opener the scanner itself uses (the constant passed to Scanner.comment with a newline terminator)", 1)
 	c.Rule("R07f", "import keeps the sequence: migrateImportRun allocates one change per scanned statement, stores statement i at index i, writes the statement's comments before its text and resets the buffer before the next statement", 4)
 
 	checkTemplatesDelim(c)
@@ -33,6 +34,7 @@ func runC07(c *Ctx) {
 	checkEscapeScan(c)
 	checkQuoteHelpers(c)
 	checkImportSequence(c)
+	checkGooseCommentGuard(c)
 }
 
 // ---- R07a
@@ -484,6 +486,44 @@ func checkQuoteHelpers(c *Ctx) {
 			}
 		}
 		c.Check("R07e", fi.Name+"|escapes its closing quote", fi.Decl.Pos(), escapes, "%s writes its argument between quote characters without escaping the quote character itself: a name containing it breaks out of the quoting and the statement no longer scans back as planned", fi.Name)
+		// every return that wraps a value in quote literals wraps the result of an escaping call
+		info := fi.Info()
+		ast.Inspect(fi.Decl.Body, func(m ast.Node) bool {
+			r, ok := m.(*ast.ReturnStmt)
+			if !ok || len(r.Results) == 0 {
+				return true
+			}
+			var parts []ast.Expr
+			var flat func(e ast.Expr)
+			flat = func(e ast.Expr) {
+				if be, ok := e.(*ast.BinaryExpr); ok && be.Op == token.ADD {
+					flat(be.X)
+					flat(be.Y)
+					return
+				}
+				parts = append(parts, e)
+			}
+			flat(r.Results[0])
+			if len(parts) != 3 {
+				return true
+			}
+			q1, ok1 := stringConst(info, parts[0])
+			q2, ok2 := stringConst(info, parts[2])
+			if !ok1 || !ok2 || len(q1) != 1 || len(q2) != 1 {
+				return true
+			}
+			escaped := false
+			if call, ok := parts[1].(*ast.CallExpr); ok {
+				if fn := calleeOf(info, call); fn != nil && fn.Pkg() != nil {
+					switch fn.Pkg().Path() + "." + fn.Name() {
+					case "strings.ReplaceAll", "strings.Replace":
+						escaped = true
+					}
+				}
+			}
+			c.Check("R07e", fi.Name+"|quoted return escapes", r.Pos(), escaped, "%s returns %s: the value placed between the quote literals is not the result of an escaping call on this path", fi.Name, types.ExprString(r.Results[0]))
+			return true
+		})
 	}
 }
 
@@ -575,4 +615,69 @@ func checkImportSequence(c *Ctx) {
 	})
 	c.Check("R07f", "migrateImportRun|comments before text", loop.Pos(), commentsPos.IsValid() && textPos.IsValid() && commentsPos < textPos && textPos < storePos, "each imported statement must be written as its comments followed by its text before it is stored")
 	c.Check("R07f", "migrateImportRun|buffer reset per statement", loop.Pos(), resetPos.IsValid() && resetPos > storePos, "the buffer must be reset after each statement is stored (otherwise statement i+1 repeats statement i)")
+}
+
+// ---- R07g
+
+func checkGooseCommentGuard(c *Ctx) {
+	// scanner line-comment openers
+	openers := map[string]bool{}
+	c.AllFuncs(false, func(fi *FuncInfo) {
+		if fi.Pkg.PkgPath != pMigrate {
+			return
+		}
+		for _, call := range callsIn(fi.Decl.Body, true) {
+			if funcIs(calleeOf(fi.Info(), call), pMigrate, "Scanner", "comment") && len(call.Args) == 2 {
+				l, ok1 := stringConst(fi.Info(), call.Args[0])
+				r, ok2 := stringConst(fi.Info(), call.Args[1])
+				if ok1 && ok2 && r == "\n" {
+					openers[l] = true
+				}
+			}
+		}
+	})
+	fi := c.Func("R07g", pSqltool, "GooseFile", "StmtDecls")
+	if fi == nil {
+		return
+	}
+	info := fi.Info()
+	found, ok := false, false
+	lit := ""
+	ast.Inspect(fi.Decl.Body, func(m ast.Node) bool {
+		ifs, isIf := m.(*ast.IfStmt)
+		if !isIf {
+			return true
+		}
+		// body appends the delimiter constant
+		appendsDelim := false
+		for _, st := range ifs.Body.List {
+			if as, isAs := st.(*ast.AssignStmt); isAs && len(as.Rhs) == 1 {
+				if call, isCall := as.Rhs[0].(*ast.CallExpr); isCall && builtinName(info, call) == "append" && len(call.Args) == 2 {
+					if id, isID := call.Args[1].(*ast.Ident); isID && id.Name == "delim" {
+						appendsDelim = true
+					}
+				}
+			}
+		}
+		if !appendsDelim {
+			return true
+		}
+		for _, fct := range impliedFacts(ifs.Cond, true) {
+			call, isCall := fct.expr.(*ast.CallExpr)
+			if !isCall || fct.val {
+				continue
+			}
+			if fn := calleeOf(info, call); fn != nil && fn.Pkg() != nil && fn.Pkg().Path() == "strings" && fn.Name() == "HasPrefix" && len(call.Args) == 2 {
+				if s, isStr := stringConst(info, call.Args[1]); isStr {
+					found = true
+					lit = s
+					if openers[s] {
+						ok = true
+					}
+				}
+			}
+		}
+		return true
+	})
+	c.Check("R07g", "GooseFile.StmtDecls|delimiter not inserted after comment lines", fi.Decl.Pos(), found && ok && openers["--"], "the goose reader guards the delimiter insertion with HasPrefix(line, %q), which is not the scanner's line-comment opener: a comment line ending in ';' gets a delimiter and becomes an (empty) statement", lit)
 }
